@@ -502,6 +502,14 @@ def header_cases(rng, n):
         if rng.random() < 0.6:
             mine(rng, h, want=rng.random() < 0.8, tries=200)
         add(cases, 1603, [rng.randrange(4), h, rng.choice([0, 1, 1]), rng.choice([T0, T0 + 1, h[3] - 7200, h[3] - 7201])], 'hdr')
+    # an explicit cur_time of 0 or 1 is a time like any other (the 2 h rule is relative to it, not to the wall clock)
+    for ct in (0, 1):
+        for nt in (0, ct + 7199, ct + 7200, ct + 7201, 100000):
+            h = W.rand_header(rng)
+            h[3], h[4] = nt, REGTEST_BITS
+            mine(rng, h, want=True, tries=200)
+            add(cases, 1603, [3, h, 1, ct], 'hdr-curtime-%d' % ct)
+            add(cases, 1603, [3, h, 0, ct], 'hdr-curtime-%d' % ct)
     return cases
 
 
